@@ -46,8 +46,21 @@ fn main() {
 
 fn real_main(args: Vec<String>) -> i32 {
     #[cfg(feature = "kernels")]
+    if args[1] == "raresearch" {
+        return checks_e::raresearch(&args[2], args.get(3).and_then(|s| s.parse().ok()).unwrap_or(1 << 24));
+    }
+    #[cfg(feature = "kernels")]
     if args[1] == "e7gen" {
         return checks_e::e7gen();
+    }
+    if args[1] == "hugegen" {
+        return checks_b::hugegen();
+    }
+    if args[1] == "kappa-witness" {
+        return checks_d::kappa_witness(args.get(2).map(|s| s.as_str()).unwrap_or("kappa-overflow-2"));
+    }
+    if args[1] == "kappa-search" {
+        return checks_d::kappa_search(args.get(2).and_then(|s| s.parse().ok()).unwrap_or(64));
     }
     if args[1] == "replay" {
         return replay::replay_file(&args[2]);
